@@ -140,6 +140,8 @@ class Prop:
     case_module = "CaseC06"
     case_vo = "theories/Cases/CaseC06.vo"
     run_fn = "run06"
+    post_variants = {"quick": 40, "thorough": 400}
+    post_ops = ("move", "sort", "add")      # start nodes are named by allocation index: nothing may disappear
     shard = 8
     rule = ("clone / equal-data labelings of every shape with 2..5 (thorough 6) nodes: one object everywhere under distinct explicit ids, "
             "same object at several depths / in cousins, value-equal distinct objects, and 'last child carries the data of the node "
